@@ -66,6 +66,7 @@ def oracle(op, vals):
         if base == "ge": return "T" if a >= b else "F"
         if base == "pow":
             if b < 0:
+                if a == 0: return "E:ZeroDivisionError"
                 return "FL"      # negative exponent: float result, C15's domain (not judged here)
             return canon(a ** b)
     except Exception as e:
